@@ -138,6 +138,10 @@ def run(tier, seed):
         ("g(%s, 1, %s);", lambda st: [st["e"]["a"][0], st["e"]["a"][2]] if st["k"] == "expr" and st["e"]["k"] == "call" and len(st["e"]["a"]) == 3 else None),
         ("arr[%s] = %s;", lambda st: [st["e"]["i"], st["e"]["e"]] if st["k"] == "expr" and st["e"]["k"] == "aasg" else None),
         ("for (v = %s; %s; v = %s) { }", lambda st: [st["init"]["e"]["e"] if st["init"]["k"] == "expr" else st["init"]["e"], st["c"], st["upd"]["e"]] if st["k"] == "for" else None),
+        # the initialiser clause is optional
+        ("for (; %s; v = %s) { }", lambda st: [st["c"], st["upd"]["e"]] if st["k"] == "for" and st["init"]["k"] == "none" else None),
+        ("while (x < 1) { for (; %s; %s) { } }", lambda st: [st["b"]["b"][0]["c"], st["b"]["b"][0]["upd"]] if st["k"] == "while" and st["b"]["b"] and st["b"]["b"][0]["k"] == "for"
+                                                  and st["b"]["b"][0]["init"]["k"] == "none" else None),
     ]
     cj = []
     step = 1 if tier != "quick" else 3
@@ -181,6 +185,62 @@ def run(tier, seed):
                 if d:
                     bad.append(("expression in '%s' parsed into a different tree: %s" % (text, d), {"source": text, "expected": want, "got": g}))
                     break
+    # ---- 1c. literal leaves at the edges of their ranges: a sample of the trees with every literal replaced by a boundary literal
+    BOUNDARY = [("2147483647", "int"), ("2147483646", "int"), ("0", "int"), ("1000000000", "int"), ("9223372036854775807L", "long"), ("2147483648L", "long"), ("0L", "long"),
+                ("1b", "bit"), ("0b", "bit"), ("1.5f", "float"), ("0.0f", "float"), ("16777217.0f", "float")]
+
+    def lits_of(t, acc):
+        if isinstance(t, dict):
+            if t.get("k") == "lit":
+                acc.add(str(t["v"]))
+            for v in t.values():
+                lits_of(v, acc)
+        elif isinstance(t, list):
+            for v in t:
+                lits_of(v, acc)
+        return acc
+
+    def with_lit(t, text, ty):
+        if isinstance(t, dict):
+            if t.get("k") == "lit":
+                return {"k": "lit", "t": ty, "v": text}
+            return {k: with_lit(v, text, ty) for k, v in t.items()}
+        if isinstance(t, list):
+            return [with_lit(v, text, ty) for v in t]
+        return t
+    with_l = [t for t in trees if lits_of(t["tree"], set())]
+    lsel = with_l[::max(1, len(with_l) // (60 if tier == "quick" else 600))]
+    lj = []
+    for text, ty in BOUNDARY:
+        for tmpl, pick in (("echo(%s);", lambda st: st["e"] if st["k"] == "echo" else None), ("long d = %s;", lambda st: st["init"] if st["k"] == "decl" else None),
+                           ("return %s;", lambda st: st["e"] if st["k"] == "ret" else None)):
+            for i in range(0, len(lsel), B):
+                chunk = lsel[i:i + B]
+                rows = []
+                for t in chunk:
+                    vals = lits_of(t["tree"], set())
+                    rows.append(tmpl % " ".join(text if tok in vals else tok for tok in t["min"]))
+                lj.append({"id": len(lj), "stage": "ast", "src": "function main() -> long {\n  %s\n}\n" % "\n  ".join(rows), "_rows": rows, "_chunk": chunk, "_lit": (text, ty), "_pick": pick})
+    lres = runner.run_jobs([{k: v for k, v in j.items() if not k.startswith("_")} for j in lj])
+    lit_checked = 0
+    for j in lj:
+        r = lres[j["id"]]
+        text, ty = j["_lit"]
+        if r["status"] != "ok" or len(r["ast"]["funcs"][0]["body"]) != len(j["_rows"]):
+            # find the offending row
+            one = runner.run_jobs([{"id": i, "stage": "ast", "src": "function main() -> long {\n  %s\n}\n" % row} for i, row in enumerate(j["_rows"])])
+            for i, row in enumerate(j["_rows"]):
+                if one[i]["status"] != "ok":
+                    bad.append(("statement '%s' follows the documented grammar but is rejected: %s" % (row, (one[i].get("what") or one[i]["status"]).strip()), {"source": row, "result": one[i]}))
+                    break
+            continue
+        for t, row, st in zip(j["_chunk"], j["_rows"], r["ast"]["funcs"][0]["body"]):
+            lit_checked += 1
+            got = j["_pick"](astmap.strip_paren(st))
+            want = with_lit(astmap.gtree(t["tree"]), text, ty)
+            d = astmap.first_diff(want, got) if got is not None else "another kind of statement"
+            if d:
+                bad.append(("expression in '%s' parsed into a different tree: %s" % (row, d), {"source": row, "expected": want, "got": got}))
     # ---- 2. statements, functions, class members: generated programs rendered and parsed back
     nprog = 300 if tier == "quick" else 4000
     progs = gen_core.random_programs(seed, nprog) + gen_scope.programs() + gen_obj.programs(seed + 1, nprog)
@@ -246,7 +306,7 @@ def run(tier, seed):
         out.violation(msg, doc, "case%d" % n)
     cov = {"states": meta["distinct"], "transitions": meta["generated"],
            "traces_validated_against_impl": 2 * len(trees) + len(progs) + len(prod),
-           "expression_trees": len(trees), "expression_renderings_parsed": expr_checked, "expressions_in_other_positions_parsed": ctx_checked, "programs_round_tripped": len(progs),
+           "expression_trees": len(trees), "expression_renderings_parsed": expr_checked, "expressions_in_other_positions_parsed": ctx_checked, "boundary_literal_renderings_parsed": lit_checked, "programs_round_tripped": len(progs),
            "class_member_combinations": len(prod), "equivalent_spellings": len(eq_pairs), "types_in_every_position": len(type_cases), "exhaustive": True,
            "samples": [{"tree": trees[4000]["tree"], "minimal": " ".join(trees[4000]["min"]), "redundant": " ".join(trees[4000]["red"])}],
            "rule": "Grammar.tla encodes docs/grammar.md (13 levels, left-associative binaries, right-associative '=', prefix - ! ~, postfix call / index / "
